@@ -16,6 +16,8 @@ def run(run):
     run.assumptions = ['full names of user-added nodes are unique (asset-less nodes are named by their id)']
     gsm.mc_slice(run, 'C09', 6 if quick else 8, depth=7 if quick else 9, must=('Generate', 'Regenerate', 'AddNode', 'RemoveNode', 'Prune', 'Analyse'))
     gsm.bfs_slice(run, 'C09', 4 if quick else 5, keep=KEEP)
+    # structural edits on a copy and on a loaded graph (both slots probed after every step)
+    gsm.bfs_slice(run, 'C09L', 5 if quick else 6, keep=KEEP)
     gsm.simulate(run, 'ALL', 14, 4000 if quick else 60000, keep=KEEP, timeout=300 if quick else 1800)
     gsm.simulate(run, 'ALL', 12, 2000 if quick else 30000, keep=KEEP, lang='LDef', timeout=300 if quick else 1800)
     gsm.driver_traces(run, 150 if quick else 2500)
